@@ -117,8 +117,12 @@ def run(rep, tier, rng):
                         continue
                     tnames = terms
                     sc = None
-                for (mn, mx), th in itertools.product(counts, thresholds):
-                    if quick and rng.random() < 0.5:
+                # a threshold that equals one of the similarities exactly (strictness of '>')
+                kk0 = k if terms is None else 6
+                simvals = sorted({sum(x * y for x, y in zip(tv, iv)) for tv in tvecs}) if tvecs else []
+                ths = thresholds + ([simvals[len(simvals) // 2] / float(1 << kk0)] if simvals else [])
+                for (mn, mx), th in itertools.product(counts, ths):
+                    if quick and rng.random() < 0.5 and th in thresholds:
                         continue
                     o = c.observe(lambda: text(vptr, voc, minimum_count=mn, maximum_count=mx, threshold=th, terms=terms))
                     if terms is None:
